@@ -503,7 +503,7 @@ def _codec_table(chk: Check, big: bool):
     """LLSDFormat_MBT: laws on every value up to depth 2 + B3 table replay."""
     from hippolyzer.lib.base import llsd
     import hippolyzer.lib.base.serialization as se
-    invs = ["WellFormed", "BinRoundTrip", "BinDocRoundTrip", "BinFraming", "NotRoundTrip", "NotAltRoundTrip", "NotNoNewline", "SniffLaw", "RLAgrees"]
+    invs = ["WellFormed", "BinRoundTrip", "BinDocRoundTrip", "BinFraming", "NotRoundTrip", "NotAltRoundTrip", "NotNoNewline", "SniffLaw", "RLAgrees", "BinEmbedded"]
 
     def mk(tiny, both):
         return "SPECIFICATION Spec\nCONSTANTS Big = %s Tiny = %s SniffTrimBoth = %s\n%s" % (
@@ -557,6 +557,28 @@ def _codec_table(chk: Check, big: bool):
             chk.violation("table: BinaryLLSD.deserialize differs from specification",
                           {"kind": "llsd-table", "op": "BinaryLLSD.deserialize", "root": v["t"]},
                           {"value": common._clip(v), "input": list(b), "impl": repr(got)[:300], "left": len(reader) if st == "ok" else None})
+        # ... embedded at a non-zero offset of the caller's reader (after 1 / 4 / 16 prefix bytes), two documents back to
+        # back (this row's and the previous row's), then trailing bytes: each read hands back its own value and leaves the
+        # reader exactly behind its document
+        pre = (b"\x07", b"\x01\x02\x03\x04", b"[" * 16)[n % 3]
+        prev = rows[n - 1] if n else r
+        pb = bytes(prev["bin"])
+        reader = se.BufferReader("<", pre + b + pb + junk)
+
+        def embedded():
+            reader.read_bytes(len(pre))
+            v1 = reader.read(se.BinaryLLSD)
+            p1 = reader.tell()
+            v2 = se.BinaryLLSD.deserialize(reader, None)
+            return [proj(v1), p1, proj(v2), reader.tell(), len(reader)]
+        got = impl_call(embedded)
+        exp = [v, len(pre) + len(b), prev["v"], len(pre) + len(b) + len(pb), len(junk)]
+        chk.count()
+        if got != ("ok", exp):
+            chk.violation("table: BinaryLLSD read at an offset / back to back differs from specification",
+                          {"kind": "llsd-table", "op": "BinaryLLSD.embedded", "prefix": len(pre)},
+                          {"value": common._clip(v), "second": common._clip(prev["v"]), "prefix": len(pre), "expected": common._clip(exp),
+                           "impl": repr(got)[:400]})
         st, got = impl_call(llsd.parse_notation, bytes(r["alt"]))
         alt_n += 1
         alt_ok += st == "ok" and proj(got) == v
